@@ -116,6 +116,8 @@ pub struct Layout {
     /// (node id, data centre)
     pub nodes: Vec<(u8, String)>,
     pub repair_interval: Duration,
+    /// per node id: simulated latency of its storage calls (absent = none)
+    pub storage_latency_ms: BTreeMap<u8, u64>,
 }
 
 pub fn members_of(nodes: &[(u8, String)]) -> Vec<ClusterMember> {
@@ -155,7 +157,13 @@ pub async fn start_cluster(layout: &Layout) -> Vec<NodeH> {
     let members = members_of(&layout.nodes);
     let mut out = vec![];
     for (id, dc) in &layout.nodes {
-        out.push(start_node(*id, dc, ModelStore::default(), &members, layout.repair_interval).await);
+        let store = ModelStore::default();
+        if let Some(ms) = layout.storage_latency_ms.get(id) {
+            let mut g = store.inner.lock();
+            g.write_latency_ms = *ms;
+            g.read_latency_ms = *ms;
+        }
+        out.push(start_node(*id, dc, store, &members, layout.repair_interval).await);
     }
     out
 }
